@@ -992,6 +992,75 @@ fn update_flags_e2e(prop: &str, idx: u64, root: &Path) -> CaseRec {
 }
 
 // ------------------------------------------------------------------------------------------------
+// 6. cli-update-expression-shapes-e2e: what `update` writes must read back as the same shell expressions
+// ------------------------------------------------------------------------------------------------
+
+/// Documents whose shell expression or first kept expectation has a shape that the writer of `update` has to keep apart
+/// from the syntax of the document: an expectation that starts like a continuation line (`> x`, legal behind the exit
+/// code line), an expression that ends in an empty continuation line, an empty expression. The document either passes
+/// (and must stay as it is) or has a stale second test that forces the rewriting of the whole file. Afterwards the
+/// shell expressions are the same, `scrut test` passes, a second update changes nothing.
+/// idx: shape (5) x format (2) x stale neighbour (2)
+fn expression_shapes_e2e(prop: &str, idx: u64, root: &Path) -> CaseRec {
+    let shape = idx % 5;
+    let cram = (idx / 5) % 2 == 1;
+    let stale = (idx / 10) % 2 == 1;
+    let dir = fresh_dir(root, format!("s{idx}"));
+    // (command lines, expectation lines incl. exit code) of the test under observation
+    let (cmd, body): (Vec<&str>, Vec<&str>) = match shape {
+        0 => (vec!["$ echo '> x'; (exit 1)"], vec!["[1]", "> x"]),
+        1 => (vec!["$ echo '> x'"], vec!["[0]", "> x"]),
+        2 => (vec!["$ echo a", "> "], vec!["a"]),
+        3 => (vec!["$ echo '> x'; echo y; (exit 2)"], vec!["[2]", "> x", "y"]),
+        _ => (vec!["$ echo '> x'; echo '> z'"], vec!["[0]", "> x", "> z"]),
+    };
+    let ind = if cram { "  " } else { "" };
+    let block = |cmd: &[&str], body: &[&str]| -> String {
+        let lines: Vec<String> = cmd.iter().chain(body.iter()).map(|l| format!("{ind}{l}\n")).collect();
+        if cram { format!("t\n{}", lines.concat()) } else { format!("# t\n\n```scrut\n{}```\n", lines.concat()) }
+    };
+    // (a Cram document is written back without a blank line at its end: none is put there)
+    let mut doc = block(&cmd, &body);
+    if stale {
+        doc.push('\n');
+        doc.push_str(&block(&["$ echo real"], &["stale"]));
+    }
+    let fmt = if cram { ParserType::Cram } else { ParserType::Markdown };
+    let doc_path = dir.join(if cram { "doc.t" } else { "doc.md" });
+    std::fs::write(&doc_path, &doc).unwrap();
+    let before = file_parse(fmt, &doc).map(|t| t.iter().map(|t| t.shell_expression.clone()).collect::<Vec<_>>());
+    let mut args = sv(&["update", "--replace", "--assume-yes"]);
+    args.push(doc_path.display().to_string());
+    let ran = scrut(&dir, &dir, &args, None);
+    let after = std::fs::read_to_string(&doc_path).unwrap_or_default();
+    let mut fails = vec![];
+    let describe = |what: &str| format!("{what}; `scrut {}` on {:?} -> {:?} ({})", args.join(" "), doc, short(&after, 400), ran.show());
+    if ran.crashed() || ran.code != Some(0) {
+        fails.push(("C10:cli-update-error".to_string(), describe("update failed")));
+    } else {
+        if !stale && after != doc {
+            fails.push(("C10:cli-update-passing-document-rewritten".to_string(), describe("every test passes, the document must stay as it is")));
+        }
+        let now = file_parse(fmt, &after).map(|t| t.iter().map(|t| t.shell_expression.clone()).collect::<Vec<_>>());
+        if before.is_err() || now != before {
+            fails.push(("C10:command-changed".to_string(), describe(&format!("shell expressions {:?} read back as {:?}", before, now))));
+        }
+        let t = scrut(&dir, &dir, &sv(&["test", &doc_path.display().to_string()]), None);
+        if t.code != Some(0) {
+            fails.push(("C09:cli-update-result-fails".to_string(), describe(&format!("`scrut test` on the updated document: {}", t.show()))));
+            fails.push(("C10:cli-update-result-fails".to_string(), describe(&format!("`scrut test` on the updated document: {}", t.show()))));
+        }
+        let again = scrut(&dir, &dir, &args, None);
+        let now = std::fs::read_to_string(&doc_path).unwrap_or_default();
+        if again.code != Some(0) || now != after {
+            fails.push(("C10:not-idempotent".to_string(), describe(&format!("a second update changes the document again: {:?}", short(&now, 300)))));
+        }
+    }
+    let _ = std::fs::remove_dir_all(&dir);
+    CaseRec { op: "noop".into(), impl_out: "ok".into(), oracle_fail: keep(prop, fails), nontrivial: true, tags: vec![format!("cli-update-shapes:shape={shape}"), format!("cli-update-shapes:cram={cram}"), format!("cli-update-shapes:stale={stale}")] }
+}
+
+// ------------------------------------------------------------------------------------------------
 
 pub fn run(ctx: &Ctx, prop: &str) {
     let seed = ctx.seed;
@@ -1011,6 +1080,10 @@ pub fn run(ctx: &Ctx, prop: &str) {
         ctx.run_stream("cli-update-flags-e2e-exhaustive", 4 * 4 * 3, true, |idx| Some(update_flags_e2e(prop, idx, &root)));
         let _ = std::fs::remove_dir_all(&root);
     }
+    let root = tmproot("shapes");
+    std::fs::create_dir_all(&root).unwrap();
+    ctx.run_stream("cli-update-expression-shapes-e2e-exhaustive", 5 * 2 * 2, true, |idx| Some(expression_shapes_e2e(prop, idx, &root)));
+    let _ = std::fs::remove_dir_all(&root);
     let root = tmproot("update");
     std::fs::create_dir_all(&root).unwrap();
     let n = if ctx.thorough { 2000 } else { 200 };
